@@ -155,7 +155,7 @@ type cvVar struct {
 func runC19(c *core.Ctx) {
 	r := c.R
 	cli.VerifSetStdErr(io.Discard)
-	vals := []string{"a", "b", "BAD", "c", "true", "x=y", "false", "0", "é", "TRUE", "False", "T", "caf\xe9", "100%"}
+	vals := []string{"a", "b", "BAD", "c", "true", "x=y", "false", "0", "é", "TRUE", "False", "T", "caf\xe9", "100%", "\"a b\"", "\"v\"", "'q'"}
 	mk := func(name string) *cvVar {
 		cv := &cvVar{name: name, variant: r.Intn(13), envState: r.Intn(3)}
 		cv.val, cv.isFlag, cv.hasClear = cvMake(cv.variant, &cv.log)
@@ -201,18 +201,26 @@ func runC19(c *core.Ctx) {
 	vars := []*cvVar{v, w, x}
 	for _, cv := range vars {
 		os.Unsetenv("VPC_" + cv.name)
+		os.Unsetenv("VPC_" + cv.name + "_2")
 		if cv.envState > 0 {
 			os.Setenv("VPC_"+cv.name, cv.envVal)
+		}
+		if cv.envState == 1 {
+			os.Setenv("VPC_"+cv.name+"_2", "later") // a second listed variable: never consulted once the first one was usable
 		}
 	}
 	defer func() {
 		for _, cv := range vars {
 			os.Unsetenv("VPC_" + cv.name)
+			os.Unsetenv("VPC_" + cv.name + "_2")
 		}
 	}()
 	app := cli.App("app", "")
 	app.ErrorHandling = flag.ContinueOnError
 	envOf := func(cv *cvVar) string {
+		if cv.envState == 1 {
+			return "VPC_" + cv.name + " VPC_" + cv.name + "_2"
+		}
 		if cv.envState > 0 {
 			return "VPC_" + cv.name
 		}
